@@ -149,9 +149,14 @@ theorem ref_connectTo (srv : Server) (s : St) (hr : cfg.realDriver = true) (hK :
     (hp : (dictGet s.db.policies srv.host).isSome = true → srv.forced = true ∨ (cfg.ssl && cfg.certValidation) = true) :
     Moves cfg K (α s) (α (connectTo cfg srv s)) := by
   unfold connectTo
-  rw [α_event _ _ rfl]
-  have := Move.conn (cfg := cfg) (K := K) (α s) srv.forced srv.host hr hK hj hp
-  exact .single (by simpa [isReconnect, α] using this)
+  simp only
+  split
+  · rw [α_event _ _ rfl]
+    have := Move.connFail (cfg := cfg) (K := K) (α s) srv.forced srv.host hr hK
+    exact .single (by simpa [isReconnect, α] using this)
+  · rw [α_event _ _ rfl]
+    have := Move.conn (cfg := cfg) (K := K) (α s) srv.forced srv.host hr hK hj hp
+    exact .single (by simpa [isReconnect, α] using this)
 
 theorem applySts_post {s s' : St} {srv srv' : Server} (h : applyStsPolicy s srv = some (srv', s')) :
     s'.slowq = s.slowq ∧
